@@ -24,7 +24,7 @@ From CGV Require Import Base.PyBase Base.PyVal Gen.ResolveGen Resolve.Bonding Re
 From CGV Require Import Base.NxGraph Resolve.GraphOps Hydro.SquashDefs Hydro.HydroDefs.
 From CGV Require Hydro.Hydrogens Hydro.Squash.
 From CGV Require Import Compose.GraphAdj Compose.CutModel Compose.CutSkeleton.
-From CGV Require Compose.Statements.
+From CGV Require Compose.Statements Compose.TextCut Compose.TextCutExamples Reader.Grammar Resolve.Pipeline Dialect.DriverFaults.
 Import ListNotations.
 Open Scope Z_scope.
 
@@ -139,6 +139,53 @@ Definition C01_corr_orders_id := CGV.Compose.Statements.C01_corr_orders_id.
 Definition C01_cut_tables_dedicated := CGV.Compose.Statements.C01_cut_tables_dedicated.
 Definition C01_cut_tables_disjoint := CGV.Compose.Statements.C01_cut_tables_disjoint.
 
+(** * Text level (theories/Compose/TextCut.v): the same from the CGsmiles STRING.  A well-formed cut written as
+    s = "{base}.{#n1=t1,...,#nk=tk}" - base = the printed form of a base-graph AST of the documented grammar (Reader,
+    C04_partial) that denotes a base graph of the cut, every t_i = FragText.render of a token list with descriptors (any
+    start atom / branch order / ring digits the renderer admits) that passes the strip component's [part_okb] for every
+    part of that name (C13_template_is_template_checked) - is read by the string-level driver model (Pipeline.from_string
+    over Reader's read_cgsmiles and [read_fragments_text] = DriverModel.read_fragments_with: fragment_split,
+    strip_bonding_descriptors, pysmiles parser model + final template, first definition of a name wins) into a state
+    whose only dictionary is a templates_ok dictionary, and the first resolve() - disconnected step, bonding step,
+    squash_atoms - returns the SKELETON of the molecule.  Hypotheses kept: the characters find_blocks / fragment_split
+    split on do not occur inside a definition / the base text ([def_clean], decided on the text); the base AST has no
+    branch multiplier; the base graph carries no `atomname`; the payload has element / charge / integer hcount. *)
+Theorem C01_text_level_skeleton : forall fo C a defs B, wf_cut C ->
+  Reader.Grammar.wf fo a = true -> Reader.Grammar.has_branch_mult a = false -> ~ In "}"%char (Reader.Grammar.print_chain a) ->
+  Reader.Grammar.denote fo a = Ok B -> is_base C B -> get_node_attributes B (S "atomname") = [] ->
+  defs <> [] -> CGV.Compose.TextCut.defs_ok fo C defs ->
+  (forall x, In x (flat C) ->
+     (exists e, aget (S "element") (payload C x) = Some e) /\ (exists q, aget (S "charge") (payload C x) = Some q) /\
+     (exists h, aget (S "hcount") (payload C x) = Some (VInt h)) /\ Hydrogens.is_H (payload C x) = false) ->
+  exists st fd m1 fg1 m2 fg2,
+    CGV.Compose.TextCut.from_text fo (CGV.Compose.TextCut.cut_string a defs) = Ok st /\
+    Pipeline.st_mol st = B /\ Pipeline.st_dicts st = [fd] /\ Pipeline.is_all_atom st = true /\ templates_ok C fd /\
+    resolve_disconnected fd (CGV.Compose.ComposeFlat.next_meta (Pipeline.st_mol st)) = Ok (m1, fg1) /\
+    bonding_step true true (CGV.Compose.ComposeFlat.next_meta (Pipeline.st_mol st)) m1 fg1 = Ok (m2, fg2) /\
+    skeleton C true m2 /\ adj_nodup m2 /\ wf_graph m2 /\ Squash.squash_atoms m2 = Ok m2.
+Proof. exact CGV.Compose.TextCut.text_level_skeleton. Qed.
+(** the fragment block alone: the dictionary read from "{#n1=t1,...}" is a templates_ok dictionary *)
+Theorem C01_text_templates_ok : forall fo C defs, defs <> [] -> CGV.Compose.TextCut.defs_ok fo C defs ->
+  exists fd, CGV.Compose.TextCut.read_fragments_text fo (Dialect.DriverFaults.block_of (CGV.Compose.TextCut.frag_body defs)) true = Ok fd /\
+             templates_ok C fd.
+Proof. exact CGV.Compose.TextCut.text_templates_ok. Qed.
+Theorem C01_text_defs_test_sound : forall fo C defs, CGV.Compose.TextCut.defs_okb fo C defs = true -> CGV.Compose.TextCut.defs_ok fo C defs.
+Proof. exact CGV.Compose.TextCut.defs_okb_sound. Qed.
+(** every returned first resolve() of the full step model on the parsed state has the skeleton as bonded graph *)
+Definition C01_text_level_step := CGV.Compose.TextCut.text_level_step.
+(** non-vacuity: {[#A][#B][#C]}.{#A=O=C(C)[$a],#B=[$a]O[>b],#C=[<b]CC} (ethyl acetate, three fragments, the acid part
+    written from the carbonyl oxygen): all hypotheses hold, and the model run on the string returns the six heavy atoms
+    with the five bonds of the molecule *)
+Example C01_text_level_nonvacuous :
+  to_string CGV.Compose.TextCutExamples.ea_string = "{[#A][#B][#C]}.{#A=O=C(C)[$a],#B=[$a]O[>b],#C=[<b]CC}"%string /\
+  (exists st fd m1 fg1 m2 fg2,
+    CGV.Compose.TextCut.from_text CGV.Compose.TextCutExamples.fo0 CGV.Compose.TextCutExamples.ea_string = Ok st /\
+    Pipeline.st_dicts st = [fd] /\ Pipeline.is_all_atom st = true /\ templates_ok CGV.Compose.TextCutExamples.ea_cut fd /\
+    resolve_disconnected fd (CGV.Compose.ComposeFlat.next_meta (Pipeline.st_mol st)) = Ok (m1, fg1) /\
+    bonding_step true true (CGV.Compose.ComposeFlat.next_meta (Pipeline.st_mol st)) m1 fg1 = Ok (m2, fg2) /\
+    skeleton CGV.Compose.TextCutExamples.ea_cut true m2 /\ Squash.squash_atoms m2 = Ok m2).
+Proof. split; [exact CGV.Compose.TextCutExamples.ea_string_text|exact CGV.Compose.TextCutExamples.ea_text_level_skeleton]. Qed.
+
 Print Assumptions C01_bonding_partial.
 Print Assumptions C01_bonding_step.
 Print Assumptions C01_disjointness_test_sound.
@@ -164,3 +211,7 @@ Print Assumptions C01_base_order_returned_car.
 Print Assumptions C01_transcript_ok_id.
 Print Assumptions C01_corr_orders_id.
 Print Assumptions C01_hypothesis_test_sound.
+Print Assumptions C01_text_level_skeleton.
+Print Assumptions C01_text_templates_ok.
+Print Assumptions C01_text_defs_test_sound.
+Print Assumptions C01_text_level_step.
